@@ -61,7 +61,7 @@ mut("c10_unary_handler_under_serve_ctx", "C10", "server.go", "resp := h.processU
 mut("c10_unary_ctx_never_cancelled", "C10", "server.go", "\tdefer unaryClientCtxCancel()\n", "\t_ = unaryClientCtxCancel\n")
 mut("c14_stream_reader_ignores_stream_ctx", "C14,C07", "server.go", "\t\tcase <-ctx.Done():\n\t\t\treturn nil, ctx.Err()\n\t\t}\n\t}\n\twriterFunc", "\t\tcase <-h.ctx.Done():\n\t\t\treturn nil, h.ctx.Err()\n\t\t}\n\t}\n\twriterFunc")
 mut("c11_sendmsg_leaks_lock", "C11", "internal/server/stream.go", "\tss.protected.Lock()\n\tdefer ss.protected.Unlock()\n\n\tbody, err := ss.codec.Marshal(m)", "\tss.protected.Lock()\n\n\tbody, err := ss.codec.Marshal(m)")
-mut("c17_write_failure_without_connection", "C17", "proxy.go", "\t\t\t\tc.toServer <- command{id: c.id, client: c, err: err}\n\t\t\t\treturn errors.Wrap(err, \"failed to write to connection\")", "\t\t\t\tc.toServer <- command{id: c.id, err: err}\n\t\t\t\treturn errors.Wrap(err, \"failed to write to connection\")")
+mut("c17_write_failure_without_connection", "C17", "proxy.go", "\tcase c.toServer <- command{id: c.id, client: c, err: err}:\n", "\tcase c.toServer <- command{id: c.id, err: err}:\n")
 mut("c02_client_drops_when_full", "C02", "internal/client/multiplexer.go", "\tcase <-h.gone:\n", "\tdefault:\n")
 mut("c06_sendmsg_asks_for_reset", "C06", "internal/client/stream.go", "\tif err != nil {\n\t\tcs.teardown(false)\n\t\treturn err\n\t}\n\trpc := goatorepo.Rpc{", "\tif err != nil {\n\t\tcs.teardown(true)\n\t\treturn err\n\t}\n\trpc := goatorepo.Rpc{")
 mut("c06_reset_written_by_read_loop", "C06,C03", "server.go", "\tselect {\n\tcase h.writeChan <- reset:\n\t\treturn nil\n\tcase <-h.ctx.Done():\n\t\treturn context.Cause(h.ctx)\n\t}\n}", "\treturn h.rw.Write(h.ctx, reset)\n}")
@@ -77,6 +77,7 @@ mut("c11_client_stream_teardown_without_signal", "C11", "internal/client/multipl
 mut("c14_refused_open_keeps_its_context", "C14", "server.go", "\t\tcancel() // no stream will use this context\n", "")
 mut("c19_new_connection_starts_idle", "C19", "http.go", "\t\tconn.bumpActivity()\n\n", "")
 mut("c12_empty_chain_guard_tests_nil_only", "C12,C20", "chained.go", "func ChainUnaryInterceptor(interceptors ...grpc.UnaryServerInterceptor) ServerOption {\n\tif len(interceptors) == 0 {", "func ChainUnaryInterceptor(interceptors ...grpc.UnaryServerInterceptor) ServerOption {\n\tif interceptors == nil {")
+mut("c17_failure_report_without_escape", "C17", "proxy.go", "\tselect {\n\tcase c.toServer <- command{id: c.id, client: c, err: err}:\n\tcase <-ctx.Done():\n\t}\n", "\tc.toServer <- command{id: c.id, client: c, err: err}\n")
 mut("c10_serve_no_drain", "C10", "server.go", "\th.cancelAndWaitForStreams()\n", "")
 
 only = sys.argv[1] if len(sys.argv) > 1 else ""
